@@ -18,7 +18,42 @@ KX = {
 A_REDB = 'A-redb: a redb table is a finite map ordered by the tuple order of its key type (component-wise, byte-wise lexicographic for &[u8] and [u8; N]); get/insert/remove are map operations; range(b) yields exactly the rows within b in ascending order; retain_in / extract_from_if remove exactly the rows in b for which the predicate holds; transactions, commit and durability are not modelled'
 A_INCR = 'increment_by_one is used in Verus units through the assumed contract incr_rel (same-length big-endian +1, false iff all 0xFF); that contract is proved on the real function by Kani for 32-byte ids (complete) and for slices up to 6 bytes (bounded, not counted)'
 
+A_BYTES = 'bytes::Bytes is an abstract byte string (view Seq<u8>): new/to_vec/clone/From<Vec<u8>>/== assumed to preserve the bytes'
+A_ENTRY = 'entries are abstract values in store-level units: the getters of SignedEntry/RecordIdentifier/EntrySignature/Hash and into_entry are assumed to return the components they name (prelude/entry.rs); impl Ord for Record = (timestamp, hash bytes) is assumed there and proved on the real function by Kani unit U-ord'
+A_MODIFY = 'Store::modify(f) runs f exactly once on the tables of the current write transaction and returns its result, or fails before running it (rule R4); the age-based auto-commit inside modify/tables is not modelled'
+A_EXTRACT = 'redb extract_from_if followed by Iterator::count is modelled by a prophecy on the table view resolved by count(); storage errors in the middle of that iteration are not modelled'
+
 PROPS = {
+    'C02': {
+        'vx': ['U-store', 'U-bounds'],
+        'kx': [KX['U-incr32'], KX['U-incr-var']],
+        'assumptions': [A_REDB, A_INCR, A_BYTES, A_ENTRY, A_MODIFY, A_EXTRACT,
+                        'the constructors of RecordsBounds used by the store units carry, as assumed contracts, exactly the postconditions proved on the real text in unit U-bounds',
+                        'two entries with identical (author, key, timestamp, hash) but different len compare equal under Record::cmp; the contracts speak about the (timestamp, hash) order'],
+        'not_covered': ['the fold of put over arbitrary sequences (lemma L-join: held set is order independent) is not yet mechanised; the per-call contract put == put_spec is'],
+        'explanation': 'ranger::Store::put on the real text equals its specification (admission test against every prefix entry incl. the empty key and deletion markers, exact pruning set, exact count, frame), proved modularly over the verified contracts of parents / remove_prefix_filtered / entry_put / range bounds.',
+    },
+    'C08': {
+        'vx': ['U-store', 'U-bounds'],
+        'kx': [KX['U-incr32'], KX['U-incr-var']],
+        'assumptions': [A_REDB, A_INCR, A_BYTES, A_ENTRY, A_MODIFY, A_EXTRACT],
+        'not_covered': ['transcript equality of whole sessions across backends (relational over process_message, see C01)', 'get_first / get_range / get_fingerprint (pending)'],
+        'explanation': 'Each storage primitive of the redb-backed reconciliation store returns what the ordered-map definition prescribes: prefix lookup, filtered prefix removal, single put, range bounds.',
+    },
+    'C13': {
+        'vx': ['U-store', 'U-rmrep'],
+        'kx': [],
+        'assumptions': [A_REDB, A_ENTRY, A_MODIFY],
+        'not_covered': ['AuthorHeads::insert/merge (BTreeMap::entry API)', 'induction over put sequences (L-heads) not mechanised'],
+        'explanation': 'entry_put keeps the per-author head at the maximum timestamp; remove_replica deletes the heads of the removed document.',
+    },
+    'C16': {
+        'vx': ['U-rmrep', 'U-bounds'],
+        'kx': [KX['U-incr32']],
+        'assumptions': [A_REDB, A_INCR, A_MODIFY, 'HashSet<NamespaceId> open_replicas is an abstract set with the std contains/insert/remove contracts'],
+        'not_covered': ['ContentHashesIterator (pending)'],
+        'explanation': 'remove_replica refuses open documents and otherwise removes exactly the rows of the named document from all six per-document tables, leaving every other row unchanged.',
+    },
     'C05': {
         'vx': ['U-bounds'],
         'kx': [KX['U-incr32'], KX['U-incr-var']],
